@@ -51,12 +51,13 @@ Proof. exact op_kind_ok. Qed.
 
 (* Statements (B.3.2) and expressions with calls (B.3.1), model of Model/StParser.v on the real tokens: every well-formed
    spelling of a statement list -- assignments, function-block calls with positional / named / output parameters,
-   IF / ELSIF / ELSE, FOR with or without BY, WHILE, REPEAT, EXIT, RETURN, nested to any depth, expressions over all
+   IF / ELSIF / ELSE, FOR with or without BY, WHILE, REPEAT, EXIT, RETURN, empty statements, nested to any depth, expressions over all
    operators with calls, signed constants and parentheses, any trivia at any slot -- is parsed to exactly the list it
    denotes, leaving exactly the rest.  The fuel bound is the size of the spelled tree. *)
 Theorem C01_statements_faithful : forall (l : StStmtProofs.sl token) rest L,
-  StStmtProofs.wf_l token StInstance.tok_class StInstance.op_level l ->
-  StStmtProofs.closer_next token StInstance.tok_class rest -> StStmtProofs.size_l token l <= L ->
+  StStmtProofs.wf_l token StInstance.tok_class StInstance.op_level true l ->
+  StStmtProofs.closer_next token StInstance.tok_class rest ->
+  (StStmtProofs.absorbs token l = true -> StInstance.st_skip rest = rest) -> StStmtProofs.size_l token l <= L ->
   StParser.plist token StInstance.tok_class t_text StInstance.tok_num StInstance.op_level L (StStmtProofs.flat_l token l ++ rest)
   = Ok (StStmtProofs.erase_l token t_text StInstance.tok_num l, rest).
 Proof. exact StInstanceProofs.plist_real. Qed.
@@ -67,9 +68,10 @@ Theorem C01_function_block_body : forall w00 fb w0 nm w1 (l : StStmtProofs.sl to
   StExprProofs.all_triv token StInstance.tok_class w00 -> t_kind fb = KFunctionBlock ->
   StExprProofs.all_triv token StInstance.tok_class w0 -> t_kind nm = KIdentifier ->
   StExprProofs.all_triv token StInstance.tok_class w1 ->
-  StStmtProofs.wf_l token StInstance.tok_class StInstance.op_level l ->
+  StStmtProofs.wf_l token StInstance.tok_class StInstance.op_level true l ->
   StExprProofs.all_triv token StInstance.tok_class w2 -> t_kind en = KEndFunctionBlock ->
   StExprProofs.all_triv token StInstance.tok_class w3 ->
+  (StStmtProofs.absorbs token l = true -> w2 = []) ->
   StInstance.parse_fb_tokens (w00 ++ fb :: w0 ++ nm :: w1 ++ StStmtProofs.flat_l token l ++ w2 ++ en :: w3)
   = StInstance.OParsed (StStmtProofs.erase_l token t_text StInstance.tok_num l).
 Proof. exact StInstanceProofs.parse_fb_spelled. Qed.
